@@ -310,6 +310,70 @@ fn run_history(run: &Run, idx: u64, seed: u64, cfg: &TreeCfg, long: bool, sc: &S
 			}
 		}
 	}
+	// epilogue: a valid sibling of the head that reaches EXACTLY the head's cumulative difficulty and spends something
+	// the head does not (the head stays; what can be spent is still what the head's chain says), then a block built
+	// elsewhere on the unchanged head, spending again
+	if ok && !h.real_pow {
+		let c = chain.as_ref().unwrap();
+		let head = c.head().unwrap().last_block_h;
+		let anc: Vec<Hash> = h.ledger.ancestry(&head).into_iter().rev().collect();
+		if anc.len() >= 2 {
+			let fp = anc[1];
+			let gap = h.ledger.get(&head).total_difficulty - h.ledger.get(&fp).total_difficulty;
+			let coins = h.spendable(&fp);
+			let txs = match coins.last() {
+				Some(cn) => vec![h.spend_tx(&[cn.clone()], 2, None)],
+				None => vec![],
+			};
+			let gb = vcommon::scenarios::mk_block_txs(&mut h, &fp, &txs, gap, "tie_sibling_of_head");
+			if gb.verdict.is_ok() {
+				match c.process_block(gb.block.clone(), opts) {
+					Ok(_) => {
+						accepted.insert(gb.hash);
+						run.count("tie_siblings_of_the_head_accepted", 1);
+						if !txs.is_empty() {
+							run.count("tie_siblings_of_the_head_accepted_with_a_spend", 1);
+						}
+						ok = check_state(run, c, &mut h, &accepted, "after_tie_sibling", &replay, &mut prng, &mut out);
+					}
+					Err(e) => {
+						run.violation(
+							"C02;class=tie_sibling_of_head;valid_block_rejected",
+							&format!("valid sibling of the head with equal cumulative difficulty rejected: {:?}", e),
+							replay.clone(),
+						);
+						ok = false;
+					}
+				}
+				let now = c.head().unwrap().last_block_h;
+				if ok && now == head {
+					let coins = h.spendable(&head);
+					let txs = match coins.first() {
+						Some(cn) => vec![h.spend_tx(&[cn.clone()], 1, None)],
+						None => vec![],
+					};
+					let nb = vcommon::scenarios::mk_block_txs(&mut h, &head, &txs, 10, "honest");
+					if nb.verdict.is_ok() {
+						match c.process_block(nb.block.clone(), opts) {
+							Ok(_) => {
+								accepted.insert(nb.hash);
+								run.count("blocks_on_the_head_after_a_tie_sibling_accepted", 1);
+								ok = check_state(run, c, &mut h, &accepted, "after_tie_sibling_then_next", &replay, &mut prng, &mut out);
+							}
+							Err(e) => {
+								run.violation(
+									"C02;class=next_block_after_tie_sibling;valid_block_rejected",
+									&format!("valid block on the head rejected after an equal-work sibling of the head had been accepted: {:?}", e),
+									replay.clone(),
+								);
+								ok = false;
+							}
+						}
+					}
+				}
+			}
+		}
+	}
 	if ok {
 		if let Err(e) = chain.as_ref().unwrap().validate(false) {
 			run.violation(
@@ -666,6 +730,8 @@ fn main() {
 	if !san {
 		run.require("block_deliveries_checked", d, run.tier.pick(200, 2000));
 		run.require("reorgs_observed", reorgs.load(Ordering::SeqCst), run.tier.pick(10, 100));
+		run.require("equal-work siblings of the head carrying a spend, accepted with the state unchanged", run.counter("tie_siblings_of_the_head_accepted_with_a_spend"), run.tier.pick(10, 100));
+		run.require("blocks on the head accepted after an equal-work sibling", run.counter("blocks_on_the_head_after_a_tie_sibling_accepted"), run.tier.pick(10, 100));
 		run.require("validate_tx_probes.spendable", run.counter("validate_tx_probes.spendable"), run.tier.pick(40, 400));
 		run.require("validate_tx_probes.input_not_unspent", run.counter("validate_tx_probes.input_not_unspent"), run.tier.pick(150, 1500));
 		run.require("validate_tx_probes.output_duplicates_unspent", run.counter("validate_tx_probes.output_duplicates_unspent"), run.tier.pick(3, 30));
